@@ -26,7 +26,19 @@ EXTENDS Integers, Sequences, FiniteSets, TLC, Json
 CONSTANTS Depth,       \* number of writes per history
           MaxOpNs,     \* choices for maxopn
           Families,    \* op families enabled in this run (subset of AllFamilies)
-          NoNoops      \* TRUE: every write of a history changes the state
+          NoNoops,     \* TRUE: every write of a history changes the state
+          BigCuts      \* where the 4096-byte write boundary of the translate log's buffered
+                       \* writer falls in an entry that starts with the key "big" (chosen once
+                       \* per history; the driver sizes the key accordingly):
+                       \*   "inkey"     inside the bytes of "big" (an entry with that key alone)
+                       \*   "lastbyte"  before the last byte of "big"
+                       \*   "between"   exactly between the pair of "big" and the next pair
+                       \*   "afterid"   after the id varint of the next pair
+                       \*   "aftersize" after the key-size varint of the next pair
+                       \*   "firstbyte" after the first byte of the next key
+                       \* (the length prefix, type, names and pair count of an entry always
+                       \* lie in the first write: the writer's buffer is empty when an
+                       \* entry starts)
 
 AllFamilies == {"bit", "time", "clear", "value", "keyed", "roaring", "import", "importkeyed",
                 "importvalue", "rowop"}
@@ -51,14 +63,16 @@ VARIABLES f,      \* set field: set of <<row, col>>
           kf,     \* keyed set field: set of <<row id, col id>>
           kex,    \* existence field of index k: set of col ids
           maxopn,
+          bigcut,
           hist
 
-vars == <<f, m, t, v, ex, ck, rk, kf, kex, maxopn, hist>>
+vars == <<f, m, t, v, ex, ck, rk, kf, kex, maxopn, bigcut, hist>>
 
 Init ==
     /\ f = {<<1, 9>>} /\ m = {} /\ t = {} /\ v = {<<9, 1>>} /\ ex = {9}
     /\ ck = <<"base">> /\ rk = <<"rbase">> /\ kf = {<<1, 1>>} /\ kex = {1}
     /\ maxopn \in MaxOpNs
+    /\ bigcut \in BigCuts
     /\ hist = << >>
 
 State == [f |-> f, m |-> m, t |-> t, v |-> v, ex |-> ex, ck |-> ck, rk |-> rk, kf |-> kf, kex |-> kex]
@@ -86,41 +100,41 @@ SeqToSet(s) == {s[i] : i \in 1..Len(s)}
 ----------------------------------------------------------------------------
 SetBitF(r, c) ==
     /\ f' = f \cup {<<r, c>>} /\ ex' = ex \cup {c}
-    /\ UNCHANGED <<m, t, v, ck, rk, kf, kex, maxopn>>
-    /\ Log([op |-> "SetBit", fld |-> "f", r |-> r, c |-> c, maxopn |-> maxopn,
+    /\ UNCHANGED <<m, t, v, ck, rk, kf, kex, maxopn, bigcut>>
+    /\ Log([op |-> "SetBit", fld |-> "f", r |-> r, c |-> c, maxopn |-> maxopn, bigcut |-> bigcut,
             post |-> [State EXCEPT !.f = f', !.ex = ex']])
 
 SetBitM(r, c) ==
     /\ m' = MutexSet(m, r, c) /\ ex' = ex \cup {c}
-    /\ UNCHANGED <<f, t, v, ck, rk, kf, kex, maxopn>>
-    /\ Log([op |-> "SetBit", fld |-> "m", r |-> r, c |-> c, maxopn |-> maxopn,
+    /\ UNCHANGED <<f, t, v, ck, rk, kf, kex, maxopn, bigcut>>
+    /\ Log([op |-> "SetBit", fld |-> "m", r |-> r, c |-> c, maxopn |-> maxopn, bigcut |-> bigcut,
             post |-> [State EXCEPT !.m = m', !.ex = ex']])
 
 SetTime(r, c, ts) ==
     /\ t' = t \cup {<<r, c, w>> : w \in ViewsOf(ts)} /\ ex' = ex \cup {c}
-    /\ UNCHANGED <<f, m, v, ck, rk, kf, kex, maxopn>>
-    /\ Log([op |-> "SetTime", r |-> r, c |-> c, ts |-> ts, maxopn |-> maxopn,
+    /\ UNCHANGED <<f, m, v, ck, rk, kf, kex, maxopn, bigcut>>
+    /\ Log([op |-> "SetTime", r |-> r, c |-> c, ts |-> ts, maxopn |-> maxopn, bigcut |-> bigcut,
             post |-> [State EXCEPT !.t = t', !.ex = ex']])
 
 ClearBit(fld, r, c) ==
     /\ f' = IF fld = "f" THEN f \ {<<r, c>>} ELSE f
     /\ m' = IF fld = "m" THEN m \ {<<r, c>>} ELSE m
     /\ t' = IF fld = "t" THEN {p \in t : ~(p[1] = r /\ p[2] = c)} ELSE t
-    /\ UNCHANGED <<v, ex, ck, rk, kf, kex, maxopn>>
-    /\ Log([op |-> "ClearBit", fld |-> fld, r |-> r, c |-> c, maxopn |-> maxopn,
+    /\ UNCHANGED <<v, ex, ck, rk, kf, kex, maxopn, bigcut>>
+    /\ Log([op |-> "ClearBit", fld |-> fld, r |-> r, c |-> c, maxopn |-> maxopn, bigcut |-> bigcut,
             post |-> [State EXCEPT !.f = f', !.m = m', !.t = t']])
 
 SetValue(c, val) ==
     /\ v' = {p \in v : p[1] # c} \cup {<<c, val>>} /\ ex' = ex \cup {c}
-    /\ UNCHANGED <<f, m, t, ck, rk, kf, kex, maxopn>>
-    /\ Log([op |-> "SetValue", c |-> c, val |-> val, maxopn |-> maxopn,
+    /\ UNCHANGED <<f, m, t, ck, rk, kf, kex, maxopn, bigcut>>
+    /\ Log([op |-> "SetValue", c |-> c, val |-> val, maxopn |-> maxopn, bigcut |-> bigcut,
             post |-> [State EXCEPT !.v = v', !.ex = ex']])
 
 SetKeyed(k, r) ==
     /\ ck' = Alloc(ck, k) /\ rk' = Alloc(rk, r)
     /\ kf' = kf \cup {<<IdOf(rk, r), IdOf(ck, k)>>} /\ kex' = kex \cup {IdOf(ck, k)}
-    /\ UNCHANGED <<f, m, t, v, ex, maxopn>>
-    /\ Log([op |-> "SetKeyed", ck |-> k, rk |-> r, maxopn |-> maxopn,
+    /\ UNCHANGED <<f, m, t, v, ex, maxopn, bigcut>>
+    /\ Log([op |-> "SetKeyed", ck |-> k, rk |-> r, maxopn |-> maxopn, bigcut |-> bigcut,
             post |-> [State EXCEPT !.ck = ck', !.rk = rk', !.kf = kf', !.kex = kex']])
 
 \* roaring import into the standard view of f, one shard; existence is not touched
@@ -133,9 +147,9 @@ RoaringSets == {
 
 ImportRoaring(rs, clear) ==
     /\ f' = IF clear THEN f \ SeqToSet(rs.pairs) ELSE f \cup SeqToSet(rs.pairs)
-    /\ UNCHANGED <<m, t, v, ex, ck, rk, kf, kex, maxopn>>
+    /\ UNCHANGED <<m, t, v, ex, ck, rk, kf, kex, maxopn, bigcut>>
     /\ Log([op |-> "ImportRoaring", shard |-> rs.shard, pairs |-> rs.pairs, clear |-> clear,
-            maxopn |-> maxopn, post |-> [State EXCEPT !.f = f']])
+            maxopn |-> maxopn, bigcut |-> bigcut, post |-> [State EXCEPT !.f = f']])
 
 \* bulk import of (row, col) pairs into one shard of f or m (no column twice in a batch)
 ImportSets == {
@@ -149,14 +163,15 @@ Import(fld, is, clear) ==
     /\ f' = IF fld # "f" THEN f ELSE IF clear THEN f \ SeqToSet(is.pairs) ELSE f \cup SeqToSet(is.pairs)
     /\ m' = IF fld # "m" THEN m ELSE IF clear THEN m \ SeqToSet(is.pairs) ELSE MutexSetAll(m, is.pairs)
     /\ ex' = IF clear THEN ex ELSE ex \cup {p[2] : p \in SeqToSet(is.pairs)}
-    /\ UNCHANGED <<t, v, ck, rk, kf, kex, maxopn>>
+    /\ UNCHANGED <<t, v, ck, rk, kf, kex, maxopn, bigcut>>
     /\ Log([op |-> "Import", fld |-> fld, shard |-> is.shard, pairs |-> is.pairs, clear |-> clear,
-            maxopn |-> maxopn, post |-> [State EXCEPT !.f = f', !.m = m', !.ex = ex']])
+            maxopn |-> maxopn, bigcut |-> bigcut, post |-> [State EXCEPT !.f = f', !.m = m', !.ex = ex']])
 
 \* bulk import by keys: row keys are translated first, then column keys, one log entry each
 KeyedSets == {
     [cks |-> <<"a", "b">>, rks |-> <<"x", "y">>],
     [cks |-> <<"big", "a">>, rks |-> <<"x", "x">>],
+    [cks |-> <<"big", "b", "a">>, rks |-> <<"y", "x", "y">>],
     [cks |-> <<"b">>, rks |-> <<"y">>] }
 
 ImportKeyed(ks) ==
@@ -165,8 +180,8 @@ ImportKeyed(ks) ==
         bits == {<<IdOf(rk2, ks.rks[i]), IdOf(ck2, ks.cks[i])>> : i \in 1..Len(ks.cks)}
     IN /\ ck' = ck2 /\ rk' = rk2
        /\ kf' = kf \cup bits /\ kex' = kex \cup {b[2] : b \in bits}
-       /\ UNCHANGED <<f, m, t, v, ex, maxopn>>
-       /\ Log([op |-> "ImportKeyed", cks |-> ks.cks, rks |-> ks.rks, maxopn |-> maxopn,
+       /\ UNCHANGED <<f, m, t, v, ex, maxopn, bigcut>>
+       /\ Log([op |-> "ImportKeyed", cks |-> ks.cks, rks |-> ks.rks, maxopn |-> maxopn, bigcut |-> bigcut,
                post |-> [State EXCEPT !.ck = ck', !.rk = rk', !.kf = kf', !.kex = kex']])
 
 \* value import into one shard: <<col, value>> pairs
@@ -181,22 +196,22 @@ ImportValue(vs) ==
     LET cols == {p[1] : p \in SeqToSet(vs.pairs)}
     IN /\ v' = {p \in v : p[1] \notin cols} \cup SeqToSet(vs.pairs)
        /\ ex' = ex \cup cols
-       /\ UNCHANGED <<f, m, t, ck, rk, kf, kex, maxopn>>
-       /\ Log([op |-> "ImportValue", shard |-> vs.shard, pairs |-> vs.pairs, maxopn |-> maxopn,
+       /\ UNCHANGED <<f, m, t, ck, rk, kf, kex, maxopn, bigcut>>
+       /\ Log([op |-> "ImportValue", shard |-> vs.shard, pairs |-> vs.pairs, maxopn |-> maxopn, bigcut |-> bigcut,
                post |-> [State EXCEPT !.v = v', !.ex = ex']])
 
 \* Store(Row(f=src), f=r): row r becomes a copy of row src
 Store(src, r) ==
     /\ src # r
     /\ f' = {p \in f : p[1] # r} \cup {<<r, p[2]>> : p \in {q \in f : q[1] = src}}
-    /\ UNCHANGED <<m, t, v, ex, ck, rk, kf, kex, maxopn>>
-    /\ Log([op |-> "Store", src |-> src, r |-> r, maxopn |-> maxopn, post |-> [State EXCEPT !.f = f']])
+    /\ UNCHANGED <<m, t, v, ex, ck, rk, kf, kex, maxopn, bigcut>>
+    /\ Log([op |-> "Store", src |-> src, r |-> r, maxopn |-> maxopn, bigcut |-> bigcut, post |-> [State EXCEPT !.f = f']])
 
 ClearRow(fld, r) ==
     /\ f' = IF fld = "f" THEN {p \in f : p[1] # r} ELSE f
     /\ m' = IF fld = "m" THEN {p \in m : p[1] # r} ELSE m
-    /\ UNCHANGED <<t, v, ex, ck, rk, kf, kex, maxopn>>
-    /\ Log([op |-> "ClearRow", fld |-> fld, r |-> r, maxopn |-> maxopn,
+    /\ UNCHANGED <<t, v, ex, ck, rk, kf, kex, maxopn, bigcut>>
+    /\ Log([op |-> "ClearRow", fld |-> fld, r |-> r, maxopn |-> maxopn, bigcut |-> bigcut,
             post |-> [State EXCEPT !.f = f', !.m = m']])
 
 Next ==
